@@ -154,18 +154,21 @@ RELEVANT = {
     "error": ["(source)", "(backtrace)", "(not(source))", "(not(backtrace))", "(ignore)", "(source, backtrace)", ""],
     "from": ["", "(skip)", "(ignore)", "(forward)", "(u8)", "(u8, u16)", "((u8, u16))", "(())", "((u8,))", "((u8, u16, u32))", "(u8 u16)", "(forward skip)",
              # redundant parentheses / nesting around listed types
-             "(((u8, u16)))", "((((u8, u16))))", "((u8))", "(((u8), (u16)))", "((u8, (u16)))", "([u8; 2])", "(&'static u8)", "((&'static u8, u16))", "(types::X)"],
+             "(((u8, u16)))", "((((u8, u16))))", "((u8))", "(((u8), (u16)))", "((u8, (u16)))", "([u8; 2])", "(&'static u8)", "((&'static u8, u16))", "(types::X)",
+             "(u8, u16,)", "((u8, u16,),)", "((u8, u16,), (u16, u8,),)", "(forward,)", "(skip,)"],
     "into": ["", "(skip)", "(ignore)", "(owned)", "(ref)", "(ref_mut)", "(owned, ref, ref_mut)", "(u8)", "(ref(u8))", "((u8, u16))", "(())", "((u8,))", "(owned(u8) u16)",
              "(owned(u8) ref(u8))", "(u8 u16)", "(owned(u8), u16)", "(ref ref_mut)",
-             "(((u8, u16)))", "((u8))", "(owned((u8)))", "(ref(((u8, u16))))", "(u8, ref)", "(ref, u8)"],
-    "as_ref": ["", "(skip)", "(ignore)", "(forward)", "(u8)", "(str, [u8])", "(())", "(u8 u16)", "(forward u8)", "((u8))", "(((u8, u16)))"],
+             "(((u8, u16)))", "((u8))", "(owned((u8)))", "(ref(((u8, u16))))", "(u8, ref)", "(ref, u8)",
+             # trailing commas at every level
+             "(owned(u8, u16,), ref(u8))", "(owned(u8,), ref(u8,), ref_mut(u8,),)", "(owned(u8,),)", "(u8, u16,)", "(owned, ref,)", "((u8, u16,),)", "(ref((u8, u16,),), owned)"],
+    "as_ref": ["", "(skip)", "(ignore)", "(forward)", "(u8)", "(str, [u8])", "(())", "(u8 u16)", "(forward u8)", "((u8))", "(((u8, u16)))", "(u8, u16,)", "(forward,)"],
     "as_mut": ["", "(skip)", "(ignore)", "(forward)", "(u8)"],
     "deref": ["", "(ignore)", "(forward)"], "deref_mut": ["", "(ignore)", "(forward)"],
     "index": ["", "(ignore)"], "index_mut": ["", "(ignore)"],
-    "into_iterator": ["", "(ignore)", "(owned)", "(ref)", "(ref_mut)", "(owned, ref, ref_mut)"],
+    "into_iterator": ["", "(ignore)", "(owned)", "(ref)", "(ref_mut)", "(owned, ref, ref_mut)", "(owned, ref, ref_mut,)", "(ignore,)"],
     "is_variant": ["", "(ignore)"], "unwrap": ["", "(ignore)", "(ref)", "(ref_mut)", "(owned)", "(ref, ref_mut)"],
     "try_unwrap": ["", "(ignore)", "(ref)", "(ref_mut)", "(owned)", "(ref, ref_mut)"],
-    "try_into": ["", "(ignore)", "(ref)", "(ref_mut)", "(owned)", "(owned, ref, ref_mut)"],
+    "try_into": ["", "(ignore)", "(ref)", "(ref_mut)", "(owned)", "(owned, ref, ref_mut)", "(owned, ref, ref_mut,)"],
     "try_from": ["(repr)", "(repr(u8))"],
     "display": ["(\"lit\")", "(\"{}\", _0)", "(\"{_0} {x}\")", "(bound(T: Copy))", "(rename_all = \"snake_case\")", "(\"{_variant}\")"],
     "debug": ["(skip)", "(ignore)", "(\"lit\")", "(\"{}\", _0)", "(\"{_0:?} {x:?}\")", "(bound(T: Copy))"],
